@@ -119,6 +119,7 @@ def catalogue():
     C["to_df"] = (lambda E: [E.x.to_df(), E.x.to_df(index=False), E.x.to_df(dim_to_columns="Alpha"), E.y.to_df(sparse=False)] and [], False)
     C["from_df"] = (lambda E: [FlodymArray.from_df(dims=E.x.dims, df=E.x.to_df()), FlodymArray.from_df(dims=E.ds("ba"), df=E.x.to_df(dim_to_columns="b", index=False))], False)
     C["from_df_caller_frame"] = (lambda E: _from_df_frame(E), False)
+    C["plain_after_inplace_unary"] = (lambda E: _plain_after_inplace(E), True)
     # stack / split
     C["stack"] = (lambda E: [flodym_array_stack([E.x, E.z], Dimension(name="Stacked", letter="k", items=["k1", "k2"]))], False)
     # assignment leaves the right-hand side alone
@@ -149,6 +150,28 @@ def _from_df_frame(E):
             (df[c].tolist() == before[c].tolist()) or all(a is b or a == b for a, b in zip(df[c].tolist(), before[c].tolist())) for c in before.columns) and df.dtypes.astype(str).tolist() == before.dtypes.astype(str).tolist()
         E.w.ob(f"caller_frame_unchanged[{len(out)}]", bool(same), info=f"columns {list(df.columns)} dtypes {df.dtypes.astype(str).tolist()}")
     return out
+
+
+def _plain_after_inplace(E):
+    """non-in-place abs / sign / apply / cumsum after in-place calls on *another* array: results must be what they
+    say, independent of each other and of the array that was edited in place earlier"""
+    w = E.w
+    tmp = E.x.copy()
+    tmp.abs(inplace=True)
+    tmp.sign(inplace=True)
+    tmp.apply(np.negative, inplace=True)
+    tmp.cumsum("a", inplace=True)
+    snap = tmp.values.copy()
+    X = E.vals["x"]
+    r1 = E.x.abs()
+    r2 = E.x.sign()
+    r3 = E.x.apply(np.negative)
+    r4 = E.z.abs()
+    for idx in np.ndindex(*np.shape(X)):
+        w.ob_eq(f"abs_after_inplace{list(idx)}", r1.values[idx], w.abs(X[idx]))
+        w.ob_eq(f"negative_after_inplace{list(idx)}", r3.values[idx], -X[idx])
+        w.ob(f"array_edited_in_place_earlier_untouched{list(idx)}", w.same(tmp.values[idx], snap[idx]))
+    return [r1, r2, r3, r4]
 
 
 def _setitem_rhs(E):
@@ -227,6 +250,9 @@ def bad_calls():
     B["set_values_from_df_missing_rows"] = lambda E: E.x.set_values_from_df(E.x.to_df().iloc[1:])
     B["set_values_from_df_foreign_items"] = lambda E: E.x.set_values_from_df(E.z.to_df().rename(index={"a1": "zz"}))
     B["cumsum_unknown_letter"] = lambda E: E.x.cumsum("q")
+    B["set_values_zero_dim_ndarray"] = lambda E: E.x.set_values(np.asarray(E.x.values[0, 0]).reshape(()))
+    B["setitem_whole_zero_dim_ndarray"] = lambda E: E.x.__setitem__(Ellipsis, E.x.sum_to(()).values)
+    B["ctor_zero_dim_ndarray_for_1d"] = lambda E: FlodymArray(dims=E.prm.dims, values=np.asarray(E.prm.values[0]).reshape(()))
     return B
 
 
@@ -254,5 +280,8 @@ def bad_stock_calls():
     B["dsm_unknown_solver"] = lambda E: StockDrivenDSM(dims=E.tx.dims, lifetime_model=FixedLifetime, solver="cholesky")
     B["lifetime_time_letter_missing"] = lambda E: FixedLifetime(dims=E.ds("ab"), mean=2.0)
     B["lifetime_prm_foreign_dim"] = lambda E: FixedLifetime(dims=E.tx.dims, mean=E.y)
+    B["lifetime_prm_same_letters_other_length"] = lambda E: FixedLifetime(dims=E.tx.dims, mean=StockArray(dims=other_time(E, [2000, 2001]), values=np.full((2, 2), 2.5)))
+    B["lifetime_prm_same_letters_other_items"] = lambda E: NormalLifetime(dims=E.tx.dims, mean=2.0, std=StockArray(dims=DimensionSet(dim_list=[E.D["t"], Dimension(name="Alpha", letter="a", items=["a1"])]), values=np.full((3, 1), 0.5)))
+    B["set_prms_same_letters_other_length"] = lambda E: FixedLifetime(dims=E.tx.dims, mean=2.0).set_prms(mean=StockArray(dims=other_time(E, [2000, 2001]), values=np.full((2, 2), 2.5)))
     B["lifetime_bad_inflow_at"] = lambda E: NormalLifetime(dims=E.tx.dims, inflow_at="centre", mean=2.0, std=1.0)
     return B
